@@ -7,6 +7,15 @@ NOTES = ("All checks: bin/check <id>. Each run regenerates coq/Gen from /repo, r
          "Known findings: KNOWN_FINDINGS.txt.")
 NOT_APPLICABLE = {}
 CLAIMED = {
+    "C12": {
+        "text": "Theorems: seeded names/field names are functions of (seed, path/shape, name) only; the seeded SHA input is injective in (path, seed, "
+                "name); the unseeded salt input is injective in (Go action id, garble binary id, GOGARBLE, flag combination) under the no-space "
+                "condition, with the ambiguous-encoding counterexample kept as a refuted statement. Tied by black-box `garble map` through the stub go "
+                "over single-difference configuration pairs (model evaluated in Coq on every observed name) and by real `garble map` runs across an "
+                "edit, a build tag and a platform change.",
+        "note": "Trusted: Coq kernel; python hashlib for digests; stub go; cmd/go's action-ID contract. No axioms.",
+        "technique": "Coq proof over the hand model of hash.go + in-Coq correspondence with black-box garble map on single-difference configuration pairs",
+    },
     "C14": {
         "text": "Theorems: the ToObfuscate decision never selects runtime deps (table proved to cover `go list -deps runtime` of the toolchain in use), "
                 "otherwise equals the GOGARBLE match; the matcher equals a relational glob spec, `*` matches everything, a plain path selects exactly "
